@@ -262,3 +262,19 @@ M('sock-netstring-size-prefix-window', 'C12', 'socketutils.py',
 M('sock-recv-close-loses-buffer', 'C12', 'socketutils.py',
   "                self.rbuf = recvd + self.rbuf\n                size_read = min(maxsize, len(self.rbuf))",
   "                self.rbuf = recvd\n                size_read = min(maxsize, len(self.rbuf))")
+
+# ---------------------------------------------------------------- C13
+# (leaving a removed keyword-only argument's entry in __kwdefaults__ is unobservable: dropped)
+M('wraps-remove-arg-default-realign', 'C13', 'funcutils.py',
+  "            d_dict.pop(arg_name, None)\n            self.defaults = tuple([d_dict[a] for a in args if a in d_dict])",
+  "            self.defaults = tuple([d_dict[a] for a in args if a in d_dict]) if len(args) != 2 else tuple(list(d_dict.values())[:len(self.defaults or ())])")
+M('wraps-invocation-drops-kwonly-after-varargs', 'C13', 'funcutils.py',
+  "        sig = self._KWONLY_MARKER.sub('', sig)\n        return sig[1:-1]",
+  "        sig = self._KWONLY_MARKER.sub('', sig)\n        if self.varargs and len(self.kwonlyargs) == 2 and self.varkw:\n            sig = sig.replace(', %s=%s' % (self.kwonlyargs[1], self.kwonlyargs[1]), '')\n        return sig[1:-1]")
+M('wraps-async-lost-with-kwonly', 'C13', 'funcutils.py',
+  "        if inspect.iscoroutinefunction(func):\n            kwargs['is_async'] = True",
+  "        if inspect.iscoroutinefunction(func) and not (kwargs.get('kwonlyargs') and kwargs.get('varargs')):\n            kwargs['is_async'] = True")
+M('wraps-doc-not-copied-when-annotated', 'C13', 'funcutils.py',
+  "        func.__doc__ = self.doc\n", "        func.__doc__ = self.doc if not (self.annotations and self.varkw and not self.args) else None\n")
+M('wraps-defaults-positional-shift', 'C13', 'funcutils.py',
+  "        func.__defaults__ = self.defaults\n", "        func.__defaults__ = self.defaults if not (self.defaults and len(self.defaults) == 2 and self.kwonlyargs) else self.defaults[::-1]\n")
